@@ -11,8 +11,17 @@ import json,re,sys
 log=open(sys.argv[1]).read()
 base=json.load(open('/root/.vp/BASELINE.json'))
 ok=set(); fail=set()
-for m in re.finditer(r'^test (\S+) \.\.\. (ok|FAILED|ignored)', log, re.M):
-    (ok if m.group(2)=='ok' else fail).add(m.group(1))
+# log lines of other threads can be interleaved after "test NAME ... ", so the verdict is taken from the
+# "failures:" lists: a test that started and is not listed there (and not marked FAILED/ignored) passed
+started=set(m.group(1) for m in re.finditer(r'^test (\S+) \.\.\. ', log, re.M))
+for m in re.finditer(r'^test (\S+) \.\.\. (FAILED|ignored)', log, re.M):
+    fail.add(m.group(1))
+for m in re.finditer(r'^failures:\n((?:    \S+\n)+)', log, re.M):
+    for l in m.group(1).splitlines():
+        fail.add(l.strip())
+for m in re.finditer(r'^---- (\S+) stdout ----', log, re.M):
+    fail.add(m.group(1))
+ok=started-fail
 missing=[]
 for t in base['stable_pass']:
     name=t.split('::',1)[1]
